@@ -110,7 +110,13 @@ func genC12Days(out *caseWriter, seed uint64, n int, args []string) error {
 				for q := r.rangeInt(1, 3); q > 0; q-- {
 					c, t := pick(r, coms), pick(r, coms)
 					if c != t {
-						j = append(j, Dir{Kind: 'P', Date: dt, Com: c, Price: fmt.Sprintf("%d.%02d", r.rangeInt(0, 400), r.rangeInt(1, 99)), Target: t})
+						price := fmt.Sprintf("%d.%02d", r.rangeInt(0, 400), r.rangeInt(1, 99))
+						if r.chance(20) {
+							// quotes with 9-14 decimal places, some below 1e-8 (seeded change C12d-create-truncates-quote cut
+							// the DECLARED price to 8 places; only products and reciprocals are truncated)
+							price = fmt.Sprintf("0.%s%d", strings.Repeat("0", r.rangeInt(3, 9)), r.rangeInt(1, 99999))
+						}
+						j = append(j, Dir{Kind: 'P', Date: dt, Com: c, Price: price, Target: t})
 					}
 				}
 			}
